@@ -73,6 +73,23 @@ def reconstruct(repo, out_dir):
         'Zone\tVerif/Odd\t0:13\tVerifC\tO%sO\t2004\tFeb\t29\t23:59',
         '\t\t\t0:00\t0:20\tOO',
     ]
+    # more tie shapes: a policy that duplicates another one, the same multi-letter LETTER in two policies, format
+    # strings that differ only in case, two rules of one policy with identical sort keys, a link to a link's
+    # target under a second name, zones sharing one format string
+    rules += [
+        'Rule\tVerifA2\t2001\tmax\t-\tMar\tlastSun\t2:00\t1:00\tD',
+        'Rule\tVerifA2\t2001\tmax\t-\tOct\tlastSun\t2:00\t0\tS',
+        'Rule\tVerifD\t2001\tmax\t-\tApr\tSun>=1\t2:00\t1:00\tDD',
+        'Rule\tVerifD\t2001\tmax\t-\tOct\tlastSun\t2:00\t0\tSS',
+        'Rule\tVerifD\t2004\tonly\t-\tJul\t1\t0:00\t1:00\tDD',
+        'Rule\tVerifD\t2004\tonly\t-\tJul\t1\t0:00\t1:00\tSS',
+    ]
+    zones += [
+        'Zone\tVerif/Twin3\t1:00\tVerifA2\tVT%sT',
+        'Zone\tVerif/CaseUp\t3:00\tVerifD\tVQ%sT',
+        'Zone\tVerif/CaseLo\t3:00\tVerifD\tvq%st',
+    ]
+    links += ['Link\tVerif/Twin3\tVerif/Alias3', 'Link\tVerif/Twin3\tVerif/alias3']
     # names that differ only in '-' / '_' (the compiler maps both to '_' in identifiers and must keep exactly
     # one of each colliding group, always the same one), among themselves and against a stock name
     zones += [
